@@ -4,7 +4,7 @@ from bvspec import *
 from units import BVUnit
 import bigint as BI
 
-P = ["C02", "C18"]
+P = ["C02", "C18", "C20"]
 FP = {384: "Fp<384, fq_modulus_var, fq_R_var, fq_R2_var, fq_inv_var>", 256: "Fp<256, fr_modulus_var, fr_R_var, fr_R2_var, fr_inv_var>"}
 
 
